@@ -143,6 +143,12 @@ fn undo_step(k: u8, id_undo: &'static str, id_redo: &'static str, id_sel: &'stat
     if apply_op(&mut um, k, sheet, a, b, w, flag).is_ok() {
         check(id_sel, selection_valid(&um));
         let after = um.model.workbook.worksheets.clone();
+        if sheet_op {
+            // the user may look at any other sheet before undoing
+            let other = any_u32();
+            assume((other as usize) < um.model.workbook.worksheets.len());
+            if um.set_selected_sheet(other).is_err() { return; }
+        }
         if um.undo().is_ok() {
             check(id_undo, obs_eq(&before, &um.model.workbook.worksheets, x, y));
             check(id_sel, selection_valid(&um));
